@@ -18,23 +18,28 @@ APPROX = 'openmdao/approximation_schemes/approximation_scheme.py'
 EXEC = 'openmdao/components/exec_comp.py'
 
 describe('C03',
-         'Decides structural necessary conditions of colouring reconstruction: (order) in '
-         '_TotalJacInfo.compute_totals the substitution subtractions run once, on self.J, after every '
-         'linear solve and before every in-place scaling of J, under a guard equivalent to "subtractions '
-         'exist"; (one-colour) the greedy loop gives each column exactly one colour and one group whose '
-         'index is that colour, testing the colours of the current column\'s neighbours; (order-id) '
-         '_order_by_ID yields each column once together with its own adjacency column; (slots/twins) '
-         'every fwd/rev dispatch in Coloring and in the coloured jac setters reads the slot, shape axis '
-         'and subscript position of its own direction; (compute) _compute_coloring transposes for rev '
-         'after building the Coloring, files the result under the matching slot and falls back to the '
-         'unidirectional colouring when the bidirectional one needs more solves; (partition) MNCO_bidir '
-         'removes from M exactly what it stores in Jf/Jr, colours Jr transposed and transposes its '
-         'overlap back; (adjacency) direct vs substitution column adjacency conditions and scratch-mask '
-         'restore; (subtract) subtraction list is encoded/decoded with one sign convention, (row, col) '
-         'keyed, dependency ordered and applied with -=.  Does not decide that the greedy colouring is '
-         'optimal, solve counts, or numerical equality.',
-         ['scipy sparse / numpy calls behave as documented',
-          'direction arguments take only the values fwd and rev unless a function raises otherwise'])
+         'Decides structural necessary conditions of colouring reconstruction (every bad verdict was confirmed at run time '
+         'to break reconstruction, the solve bound, or to raise, on some pattern): (order) in _TotalJacInfo.compute_totals '
+         'the substitution subtractions run on self.J after the last linear solve, not twice in a row, before every '
+         'in-place scaling of J, under a guard equivalent to "subtractions exist"; (order-approx) approximated totals are '
+         'scaled only after _linearize; (one-colour) the greedy loop gives each column exactly one colour and one group '
+         'whose index is that colour, testing the colours of the current column\'s neighbours; (order-id) _order_by_ID '
+         'yields every non-empty column once with its own adjacency; (slots/setter-twins/coords) every fwd/rev dispatch '
+         'reads the slot, nz array, shape axis and subscript position of its own direction and sparse matrices are built '
+         'as (rows, cols); (modes) Coloring.modes() and _TotalJacInfo.modes cover every coloured direction; (pairing/seeds/'
+         'gather) colour number, group members, seeds, iteration metadata and nonzero lists stay paired, scratch columns '
+         'are clean; (compute) _compute_coloring builds the Coloring before the rev transposition, colours after it, files '
+         '(groups, map) under the matching slot and never returns a bidirectional colouring that needs more solves than '
+         'fwd or rev; (partition) MNCO_bidir removes from M exactly what it stores, retires the chosen row/column, colours '
+         'Jr transposed, computes subtractions exactly for bidirectional substitution colourings; (adjacency) direct = '
+         'either-in-partition, substitution = both / overlap, pairs over the full row, symmetric storage, single-entry rows '
+         'registered; (subtract) one sign convention between colour map and reader, same-colour restriction, (row, col) '
+         'positions, dependency order, J[pos] -= sum(J[k]).  Does not decide that the greedy colouring is minimal, nor '
+         'numerical equality; scratch-mask restore and the exact overlap bookkeeping are reported as undecided when changed '
+         '(run-time search showed them to be conservative).',
+         ['scipy sparse / numpy / networkx calls behave as documented',
+          'direction arguments take only the values fwd and rev unless a function raises otherwise',
+          'MPI-only paths (_jac_setter_dist, par_deriv_jac_setter, locality mask of seeds) are checked for shape only'])
 
 
 # =========================================================================== helpers
@@ -275,7 +280,6 @@ def order(repo, out):
         recv = cx.rpath(astx.receiver(call), s)
         a0 = astx.arg(call, 0, 'J')
         ap = cx.rpath(a0, s) if a0 is not None else None
-        problems = []
         if recv != 'self.simul_coloring':
             out.unsure(fn, s.ast, f'receiver {recv} of _apply_subtractions is not self.simul_coloring')
             continue
